@@ -1,6 +1,7 @@
 pub mod book;
 pub mod c01;
 pub mod c06;
+pub mod c08;
 pub mod c11;
 pub mod c12;
 pub mod c13;
